@@ -79,6 +79,52 @@ def check_core(c):
         raise Violation("salsa20.hash!=spec", exp, got)
 
 
+def check_object_history(c):
+    """ONE Salsa20/ChaCha object used for several messages, nonces, abandoned keystream generators and (Salsa20)
+    core-hash calls: every answer is the specified one, whatever the object did before"""
+    kind = c["cipher"]
+    obj = make(c)
+    tag = kind + ":object-history"
+    for i, op in enumerate(c["ops"]):
+        if op[0] in ("enc", "dec"):
+            nonce, M = op[1], op[2]
+            ks = R.keystream(kind, c["key"], nonce, c["rounds"], len(M))
+            exp = bytes(a ^ b for a, b in zip(M, ks))
+            got = guard(getattr(obj, op[0]), Bits(nonce, bitorder=1), M)
+            if got != exp:
+                raise Violation("%s:%s!=M^keystream" % (tag, op[0]), {"call": i, "out": exp}, {"call": i, "out": got})
+        elif op[0] == "ks":
+            g = guard(obj.keystream, Bits(op[1], bitorder=1))
+            for j in range(op[2]):
+                got = b"".join(guard(pack, w) for w in guard(next, g))
+                exp = (R.salsa_block if kind == "salsa20" else R.chacha_block)(c["key"], op[1], j, c["rounds"])
+                if got != exp:
+                    raise Violation(tag + ":keystream-block!=spec", {"call": i, "block": j, "ks": exp}, {"call": i, "block": j, "ks": got})
+        elif op[0] == "hash":
+            if kind != "salsa20" or c["rounds"] != 20:
+                continue            # the specified core is the 20-round Salsa20 one
+            got = guard(obj.hash, op[1])
+            exp = R.salsa_hash(op[1])
+            if got != exp:
+                raise Violation(tag + ":hash!=spec", {"call": i, "out": exp}, {"call": i, "out": got})
+        else:
+            raise AssertionError(op[0])
+
+
+def object_history_strategy(tier):
+    nonce = gen.pick((3, gen.blob(8)), (1, st.just(bytes(8))))
+    msg = gen.blob_of(gen.pick((2, gen.uint(0, 70)), (1, st.sampled_from([0, 63, 64, 65, 128, 129])), (1, gen.uint(71, 200))))
+    op = gen.pick((3, st.tuples(st.just("enc"), nonce, msg)), (2, st.tuples(st.just("dec"), nonce, msg)),
+                  (1, st.tuples(st.just("ks"), nonce, gen.uint(1, 3))), (2, st.tuples(st.just("hash"), gen.blob(64))))
+    def build(conf, ops, force20):
+        if force20:
+            conf = dict(conf, rounds=20)
+        if not ops[-1][0] in ("enc", "dec"):
+            ops = ops + [("enc", conf["nonce"], bytes(range(70)))]
+        return dict(conf, ops=tuple(ops))
+    return st.builds(build, conf_strategy(tier), st.lists(op, min_size=2, max_size=5), st.booleans())
+
+
 def conf_strategy(tier):
     keys = gen.pick((3, gen.blob(32)), (2, gen.blob(16)))
     nonce = gen.pick((3, gen.blob(8)), (1, st.just(bytes(8))))
@@ -201,6 +247,12 @@ FACETS = [
           shards={"quick": 16, "thorough": 32}, nontrivial=lambda c: True, classify=classify_ks,
           rule="1..4 keystream blocks starting at block 0, at 2^32-2..2^32+1 (carry from the low to the high counter word, via the guarded hook) "
                "and at uniformly large indices"),
+    Facet("object-histories", check_object_history, strategy=object_history_strategy, budget={"quick": 500, "thorough": 10000},
+          nontrivial=lambda c: len(c["ops"]) >= 2,
+          classify=lambda c: (c["cipher"], "has hash" if any(o[0] == "hash" for o in c["ops"]) and c["cipher"] == "salsa20" and c["rounds"] == 20 else "no hash",
+                              "has abandoned keystream" if any(o[0] == "ks" for o in c["ops"]) else "no abandoned keystream"),
+          rule="ONE Salsa20/ChaCha object: 2..6 calls mixing enc/dec under different nonces and lengths, partly consumed keystream "
+               "generators and (Salsa20/20) core-hash calls; every output compared with the specification"),
     Facet("salsa-core", check_core, strategy=core_strategy, budget={"quick": 300, "thorough": 10000},
           shards={"quick": 8, "thorough": 16}, nontrivial=lambda c: any(c["X"]), classify=lambda c: (),
           rule="Salsa20().hash(X) on random / constant / single-bit 64-byte inputs"),
